@@ -166,6 +166,9 @@ pub fn sdd_line(rng: &mut Rng, maxvars: usize, maxops: usize) -> String {
         tbl,
         prog.ops.iter().map(|o| o.print()).collect::<Vec<_>>().join("|")
     );
+    if std::env::var("HARNESS_DEBUG").is_ok() {
+        eprintln!("{}", head);
+    }
     let r = guarded(|| {
         rsdd::verif_hooks::set_table_capacity(if tbl == 0 { None } else { Some(tbl) });
         let mut b = CompressionSddBuilder::new(vt.to_vtree());
